@@ -4,6 +4,7 @@ import collections
 import collections.abc
 
 from bisect import bisect_left, bisect_right
+from gzip import BadGzipFile
 from pathlib import Path
 from numbers import Number
 from operator import truediv, sub, mul, gt, itemgetter, methodcaller
@@ -523,7 +524,7 @@ class TransactionDecode:
         transactions = iter(filter(None,map(methodcaller('strip'),transactions)))
         try:
             ver_row = json.loads(next(transactions))
-        except (StopIteration,EOFError,ValueError):
+        except (StopIteration,EOFError,BadGzipFile,ValueError):
             #an empty file or a file whose first record was only partly written
             yield ["version",4]
             return
@@ -531,13 +532,13 @@ class TransactionDecode:
         if ver_row[1] == 4:
             yield ver_row
             #a run that was interrupted while writing can leave a final record
-            #that is only partly written (for gz files a truncated gzip member)
+            #that is only partly written (for gz files a truncated gzip member, even a single byte of it)
             prev = None
             try:
                 for line in transactions:
                     if prev is not None: yield json.loads(prev)
                     prev = line
-            except EOFError:
+            except (EOFError,BadGzipFile):
                 pass
             if prev is not None:
                 try:
